@@ -166,9 +166,21 @@ func (s *Sim) Quiesce() {
 		// chaos phase. The controller does not watch revisions (upstream neither), so
 		// only the next reconcile can notice; C02's premise ("caches catch up") is
 		// taken to include one such reconcile per set. Pod and set events are NOT
-		// helped along: their wake-ups stay the controller's own business.
-		s.Resync(KSet)
-		s.count("quiesce.revision_resync")
+		// helped along: their wake-ups stay the controller's own business. A set whose
+		// latest reconcile started after the last such write has seen it already, and
+		// a set that was never reconciled owes its first reconcile to its add event.
+		last := map[string]*Reconcile{}
+		for _, rec := range s.Recs {
+			if rec.Key != "" {
+				last[rec.Key] = rec
+			}
+		}
+		for _, ky := range sortedKeys(last) {
+			if last[ky].StartSeq < s.revDirtySeq {
+				s.ResyncOne(KSet, ky)
+				s.count("quiesce.revision_resync")
+			}
+		}
 	}
 	stuck := map[string]int{}
 	pods := len(s.Store.tables[KPod])
